@@ -68,6 +68,31 @@ def run(ctx):
         if not removed:
             ctx.ok("C02.atomic", f"C02.atomic:{kind}:nothing-removed:{why}", w.where(f))
 
+    # ---- atomicity of the other signing call, hash_and_sign_event ---------------------------------------
+    ctx.rule("C02.atomic-event", "hash_and_sign_event: on every path that returns Err nothing has been written into the caller's object (a write into the object or "
+                                 "into a value reached from it - `hashes.sha256` - before a step that can still fail is left behind when that step fails)")
+    from . import C03 as _C03
+    dexh = D.Dex(w.lookup, adt_discr=w.adt_discr, effects=lambda n: True, models=_C03.CLONE, unroll=2, inline=U.sig_inline)
+    fh = w.fn(f"{FN}::hash_and_sign_event")
+    hp = dexh.paths(fh, [D.sym("entity"), D.sym("kp"), D.sym("object"), D.sym("rr")])
+    herr = [p for p in hp if p.kind == "ret" and U.is_err(p.ret)]
+    ctx.floor("hash_and_sign_event error paths", len(herr), 3)
+    for p in herr:
+        failing = re.sub(r".*?(content_hash|redact|sign_json|not_of_type).*", r"\1", D.show(p.ret)) if re.search(r"content_hash|redact|sign_json|not_of_type", D.show(p.ret)) else D.show(p.ret)[:40]
+        writes = []
+        for e in p.effects:
+            m = e[0].rsplit("::", 1)[-1]
+            tgt = D.show(e[1][0]) if e[1] else ""
+            if m in ("insert", "remove", "remove_entry", "clear", "retain", "extend", "append") and "object" in tgt and "clone(object)" not in tgt:
+                writes.append((m, D.show(e[1][1])[:30] if len(e[1]) > 1 else ""))
+        k = f"C02.atomic-event:err={failing}:{'written=' + '+'.join(sorted({w_[1].strip(chr(39)) for w_ in writes})) if writes else 'nothing-written'}"
+        if writes:
+            ctx.violation("C02.atomic-event", k, w.where(fh),
+                          f"hash_and_sign_event returns an error from {failing} after {writes} on the caller's object: the failed signing call leaves the event changed "
+                          f"(it gained / lost `hashes.sha256`)")
+        else:
+            ctx.ok("C02.atomic-event", k, w.where(fh))
+
     # ---- signed content -----------------------------------------------------------------------------
     ctx.rule("C02.content", "sign_json success paths: the only removals are `signatures` and `unsigned` (same set as "
                             "CANONICAL_JSON_FIELDS_TO_REMOVE used by verification); the bytes passed to KeyPair::sign are "
